@@ -55,7 +55,10 @@ type rtSource struct {
 	lastHigh int64         // last exclusive high watermark emitted
 	emitted  int
 	closeSnd int
-	onAck    func(s *rtSource, a int64)
+	// halfCloseEnds: the remote stream sender ends the stream when the proxy half-closes (Temporal's behaviour)
+	halfCloseEnds bool
+	halfClosed    chan struct{}
+	onAck         func(s *rtSource, a int64)
 }
 
 func (s *rtSource) Recv() (*adminservice.StreamWorkflowReplicationMessagesResponse, error) {
@@ -67,6 +70,8 @@ func (s *rtSource) Recv() (*adminservice.StreamWorkflowReplicationMessagesRespon
 		return m, nil
 	case <-s.broken:
 		return nil, context.Canceled
+	case <-s.halfClosed:
+		return nil, io.EOF
 	case <-s.ctx.Done():
 		return nil, s.ctx.Err()
 	}
@@ -88,7 +93,13 @@ func (s *rtSource) Send(req *adminservice.StreamWorkflowReplicationMessagesReque
 	return nil
 }
 
-func (s *rtSource) CloseSend() error         { s.closeSnd++; return nil }
+func (s *rtSource) CloseSend() error {
+	s.closeSnd++
+	if s.halfCloseEnds && s.closeSnd == 1 {
+		close(s.halfClosed)
+	}
+	return nil
+}
 func (s *rtSource) Context() context.Context { return s.ctx }
 
 // rtAdminClient hands the prepared source stream to a receiver.
@@ -180,6 +191,8 @@ type rtEnv struct {
 	logger    log.Logger
 	lateFrom  int  // targets with index >= lateFrom are connected by an explicit action
 	snapshotTasks bool
+	spread        bool // restricted alphabet: tasks of a batch are spread round-robin over the targets
+	fullOnly      bool // restricted alphabet: a target acks after processing nothing or everything
 }
 
 func rtNewEnv(nSrc, nTgt int) *rtEnv {
@@ -202,7 +215,8 @@ func (e *rtEnv) newTarget(j, inc int) *rtTarget {
 func (e *rtEnv) newSource(i int) *rtSource {
 	return &rtSource{env: e, idx: i, shard: history.ClusterShardID{ClusterID: rtSourceCluster, ShardID: int32(i + 1)},
 		ctx:     context.Background(),
-		toProxy: make(chan *adminservice.StreamWorkflowReplicationMessagesResponse, 8), broken: make(chan struct{})}
+		toProxy: make(chan *adminservice.StreamWorkflowReplicationMessagesResponse, 8), broken: make(chan struct{}),
+		halfClosed: make(chan struct{})}
 }
 
 // startSender runs a real proxyStreamSender for target j on its own goroutine.
@@ -279,7 +293,13 @@ func (e *rtEnv) emitBatch(s *rtSource, n int) {
 		id := verifNondetInt64("taskID")
 		verifAssume(verifAnd(id > prev, id < 1<<40))
 		prev = id
-		wf := verifWorkflowID(e.nextWF)
+		var wf string
+		if e.spread {
+			// restricted alphabet: the k-th task of a batch goes to target k mod nTgt
+			wf = verifWorkflowIDForShard(e.nextWF, k%e.nTgt+1, e.nTgt)
+		} else {
+			wf = verifWorkflowID(e.nextWF)
+		}
 		e.nextWF++
 		obj := &replicationv1.ReplicationTask{
 			SourceTaskId: id,
